@@ -4,6 +4,7 @@ and a stratified sample is compiled and executed end to end as `#![forbid(unsafe
 import json, os, re, random, shutil, subprocess, time
 from concurrent.futures import ThreadPoolExecutor
 from vlib import *
+from engines import cap_violations
 
 MACROS = ["find", "find_borrow", "iter", "iter_borrow", "iter_destroy"]
 
@@ -101,7 +102,7 @@ def lab_compare(prog, mac, res):
 
 # ----------------------------------------------------------------------------- end to end
 
-POOL = ["Ca", "Cb", "Cc", "Cd"]
+POOL = ["Ca", "Cb", "Cc", "Cd", "Cab", "Caba"]
 PRELUDE = """#![forbid(unsafe_code)]
 #![allow(warnings)]
 use gecs::prelude::*;
@@ -240,7 +241,9 @@ def match_enum(tier, seed):
     t0 = time.time()
     rlib, deps = build_gecs((), False)
     lab = build_macrolab()
-    confs = [("Pool3", 2, 2)] if tier == "quick" else [("Pool3", 3, 2), ("Pool4", 2, 2)]
+    # quick: all pairs of archetypes x lists of two parameters; three archetypes x single parameters;
+    # component names that are prefixes of each other
+    confs = [("Pool3", 2, 2), ("Pool3", 3, 1), ("PoolP", 2, 1)] if tier == "quick" else [("Pool3", 3, 2), ("Pool4", 2, 2), ("PoolP", 2, 2)]
     progs, states, trans = [], 0, 0
     for pool, ma, mp in confs:
         items, st = tlc_lines("MatchMC", "SPECIFICATION Spec\nCONSTANTS\n  PoolSeq <- %s\n  MaxArch = %d\n  MaxParams = %d\nINVARIANTS Sound Complete Export\nCHECK_DEADLOCK FALSE\n" % (pool, ma, mp), "PROG")
@@ -354,7 +357,7 @@ def match_enum(tier, seed):
            "outcomes": outcome_count, "tokens_scanned": tokens_scanned, "unsafe_tokens": unsafe_tokens,
            "e2e_crates": e2e_crates, "e2e_programs": e2e_programs, "e2e_error_programs": len(err_jobs),
            "tlc_states": states, "tlc_transitions": trans, "traces": e2e_programs,
-           "violations": violations[:60], "n_violations": len(violations), "samples": samples,
+           "violations": cap_violations(violations), "n_violations": len(violations), "samples": samples,
            "wall_s": round(time.time() - t0, 1), "cached": False}
     cache_put("match", key, res)
     return res
@@ -362,9 +365,10 @@ def match_enum(tier, seed):
 
 # ============================================================================ ids (C15) and cfg (C16)
 
-PRED = {1: "pa", 2: "pb"}
+PRED = {1: "pa", 2: "pb", 3: "pc"}
 ARCHN = ["Aa", "Ab", "Ac", "Ad"]
 COMPN = ["Ca", "Cb", "Cc", "Cd"]
+assert len(ARCHN) >= 4 and len(COMPN) >= 4
 
 def pred_attrs(preds_flags, realise=None, asg=None):
     """cfg attributes for an item. realise None: symbolic names; 'const': cfg(all())/cfg(any())."""
@@ -410,6 +414,9 @@ def ids_world_body(item, level, realise=None, twin=False):
             idattr = "#[component_id(%d)]" % it["id"] if it["id"] >= 0 else ""
             comps.append("%s %s %s" % (deco(it), idattr, COMPN[i]))
         parts.append("ecs_archetype!(Aa, %s);" % ", ".join(comps))
+        if level == "comp2":
+            # the same components again in a second archetype: the component counter restarts per archetype
+            parts.append("ecs_archetype!(Ab, %s);" % ", ".join(comps))
     return " ".join(parts)
 
 def ids_bools(item):
@@ -437,6 +444,10 @@ def ids_compare(item, level, res):
     else:
         got = [(c[0], c[1]) for c in w["archs"][0]["comps"]] if w["archs"] else []
         want = [(COMPN[i], item["ids"][k]) for k, i in enumerate(en)]
+        if level == "comp2":
+            got2 = [(c[0], c[1]) for c in w["archs"][1]["comps"]] if len(w["archs"]) > 1 else []
+            if got2 != want:
+                return "second archetype's component ids %s, expected %s (the counter restarts per archetype)" % (got2, want)
     return None if got == want else "ids %s, expected %s" % (got, want)
 
 IDS_PRELUDE = """#![forbid(unsafe_code)]
@@ -490,14 +501,24 @@ def ids_enum(tier, seed):
     t0 = time.time()
     rlib, deps = build_gecs((), False)
     lab = build_macrolab()
-    choices, maxitems = ("IdsQuick", 3) if tier == "quick" else ("IdsFull", 3)
-    items, st = tlc_lines("IdsMC", "SPECIFICATION Spec\nCONSTANTS\n  IdChoices <- %s\n  MaxItems = %d\n  Preds <- TwoPreds\nINVARIANTS RuleHolds ReduceEquivalent Export\nCHECK_DEADLOCK FALSE\n" % (choices, maxitems), "IDS")
+    # (id choices, max items, predicates): the main configuration, longer undecorated declarations with the
+    # edge ids (successors of 127/128/254/255), and three distinct predicates on short declarations
+    confs = [("IdsQuick", 3, "TwoPreds"), ("IdsEdge", 4, "NoPreds"), ("IdsTiny", 2, "ThreePreds")] if tier == "quick" else \
+            [("IdsFull", 3, "TwoPreds"), ("IdsEdge", 4, "NoPreds"), ("IdsQuick", 3, "ThreePreds")]
+    items, st = [], {"distinct": 0, "generated": 0}
+    for choices, maxitems, preds in confs:
+        its, st1 = tlc_lines("IdsMC", "SPECIFICATION Spec\nCONSTANTS\n  IdChoices <- %s\n  MaxItems = %d\n  Preds <- %s\nINVARIANTS RuleHolds ReduceEquivalent Export\nCHECK_DEADLOCK FALSE\n" % (choices, maxitems, preds), "IDS", timeout=6000)
+        items += its
+        st["distinct"] += st1.get("distinct", 0)
+        st["generated"] += st1.get("generated", 0)
     violations = []
     reqs, index = [], []
     for ii, item in enumerate(items):
-        for level in ("arch", "comp"):
-            if level == "comp" and not ids_expected(item, level):
+        for level in ("arch", "comp", "comp2"):
+            if level != "arch" and not ids_expected(item, level):
                 continue   # an archetype without components is not a declaration
+            if level == "comp2" and (ii % 3 != 0 or len(item["items"]) > 3):
+                continue
             reqs.append("W\t%s\t%s" % (ids_world_body(item, level), ids_bools(item)))
             index.append((ii, level, False))
             # the reduced twin through the same real code (C16: decorated == twin)
@@ -526,6 +547,8 @@ def ids_enum(tier, seed):
                                "event": {"item": item}, "origin": {"engine": "ids-lib"}})
         if msg:
             tags = ["C16"] if (decorated and not twin) else ["C15"]
+            if level == "arch" and not item["ok"] and item["err"] == "duplicate" and res.get("res") == "ok":
+                tags = tags + ["C08", "C14"]   # two archetypes share an id: their handles collide and dispatch to the wrong one
             if decorated and not twin:
                 # also C15 when the undecorated twin is wrong too; attribution by the twin's own entry
                 pass
@@ -587,7 +610,7 @@ def ids_enum(tier, seed):
     res = {"engine": "ids", "tier": tier, "seed": seed, "programs": len(items), "generator_runs": len(reqs), "outcomes": stats,
            "e2e_crates": e2e["crates"], "e2e_ok": e2e["ok"], "e2e_err": e2e["err"], "traces": e2e["crates"],
            "tlc_states": st.get("distinct", 0), "tlc_transitions": st.get("generated", 0),
-           "violations": violations[:60], "n_violations": len(violations), "samples": samples,
+           "violations": cap_violations(violations), "n_violations": len(violations), "samples": samples,
            "wall_s": round(time.time() - t0, 1), "cached": False}
     cache_put("ids", key, res)
     return res
@@ -705,15 +728,38 @@ def cfgq_enum(tier, seed):
         for mac in macs:
             reqs.append("Q\t%s\t%s\t\t%s\t%s" % (mac, body, query_args(mac, params, "{ }", cfgq_param_cfgs(item)), cfgq_bools(item)))
             index.append((ii, mac))
+    # the cfg-probing chain of the query macros (independent of the assignment): one request per
+    # distinct decorated parameter list and macro
+    seen_chain = set()
+    for ii, item in enumerate(items):
+        params = [dp["p"] for dp in item["dparams"]]
+        sig = json.dumps([item["decl"], item["dparams"]])
+        if sig in seen_chain:
+            continue
+        seen_chain.add(sig)
+        for mac in macs:
+            reqs.append("CQ\t%s\t%s\t\t%s" % (mac, render_world_body(item["decl"]), query_args(mac, params, "{ }", cfgq_param_cfgs(item))))
+            index.append((ii, "chain:" + mac))
     chunks = 12
     per = (len(reqs) + chunks - 1) // chunks
     with ThreadPoolExecutor(max_workers=chunks) as ex:
         parts = list(ex.map(lambda i: run_lab(lab, reqs[i * per:(i + 1) * per]) if reqs[i * per:(i + 1) * per] else [], range(chunks)))
     results = [r for p in parts for r in p]
     violations, known = [], []
-    stats = {"decorated": 0, "some_disabled": 0, "all_disabled": 0, "known_L1": 0}
+    stats = {"decorated": 0, "some_disabled": 0, "all_disabled": 0, "known_L1": 0, "chains": 0}
     for (ii, mac), res in zip(index, results):
         item = items[ii]
+        if mac.startswith("chain:"):
+            stats["chains"] += 1
+            order = []
+            for dp in item["dparams"]:
+                if dp["pred"] and dp["pred"] not in order:
+                    order.append(dp["pred"])
+            msg = ("chain generation failed: %s" % res.get("msg")) if res["res"] != "ok" else chain_check(res["chain"], order, mac[6:])
+            if msg:
+                violations.append({"tags": ["C16"], "what": "cfg-probing macro chain of ecs_%s!: %s" % (mac[6:], msg), "at": ii,
+                                   "event": {"decl": item["decl"], "dparams": item["dparams"], "generator": res}, "origin": {"engine": "cfgq-chain"}})
+            continue
         n_dis = sum(1 for dp in item["dparams"] if dp["pred"] and not item["asg"][dp["pred"] - 1])
         if any(dp["pred"] for dp in item["dparams"]):
             stats["decorated"] += 1
@@ -767,7 +813,7 @@ def cfgq_enum(tier, seed):
     samples = [{"decl": it["decl"], "dparams": it["dparams"], "asg": it["asg"], "twin": it["params"], "outcome": it["outcome"]} for it in items[5::7001][:3]]
     res = {"engine": "cfgq", "tier": tier, "seed": seed, "programs": len(items), "generator_runs": len(reqs), "stats": stats,
            "e2e_crates": e2e, "traces": e2e, "tlc_states": st.get("distinct", 0), "tlc_transitions": st.get("generated", 0),
-           "violations": violations[:60], "n_violations": len(violations), "known": known[:3], "n_known": len(known),
+           "violations": cap_violations(violations), "n_violations": len(violations), "known": known[:3], "n_known": len(known),
            "samples": samples, "wall_s": round(time.time() - t0, 1), "cached": False}
     cache_put("cfgq", key, res)
     return res
@@ -797,6 +843,11 @@ HOLDER = {  # name: (acquire, use, release)
     "bslice": ("let h = world.aa.borrow_slice::<Ca>();", "let _x = h[0].0;", "drop(h);"),
     "archref": ("let h = world.archetype::<Aa>();", "let _x = h.len();", ""),
     "archmut": ("let h = world.archetype_mut::<Aa>();", "let _x = h.len();", ""),
+    "bentity": ("let b = world.borrow(e).unwrap(); let h = b.entity();", "let _x = h.archetype_id();", "drop(b);"),
+    "viewent": ("let v = world.view(e).unwrap(); let h = v.entity;", "let _x = h.archetype_id();", "drop(v);"),
+    "bslicemut": ("let mut h = world.aa.borrow_slice_mut::<Ca>();", "h[0].0 += 1;", "drop(h);"),
+    "entrefany": ("let h: &EntityAny = (&world.aa.entities()[0]).into();", "let _x = h.archetype_id();", ""),
+    "entsel": ("let h: &Entity<Aa> = &world.aa.entities()[0];", "let _x = SelectEntity::from(h);", ""),
 }
 INTRUDER = {
     "create": "world.create::<Aa>((Ca(3), Cb(4)));",
@@ -810,6 +861,13 @@ INTRUDER = {
     "contains": "let _b = world.contains(e2);",
     "len": "let _n = world.aa.len();",
     "iterbq": "ecs_iter_borrow!(world, |c: &Cb| { let _ = c.0; });",
+    "slice2": "let _s = world.aa.get_slice::<Cb>().len();",
+    "slicemut2": "world.aa.get_slice_mut::<Cb>()[0].0 += 1;",
+    "slices2": "let _s = world.aa.get_all_slices_mut().cb.len();",
+    "bslice2": "let _s = world.aa.borrow_slice::<Cb>().len();",
+    "findq": "let _f = ecs_find!(world, e2, |c: &mut Cb| { c.0 += 1; });",
+    "findbq": "let _f = ecs_find_borrow!(world, e2, |c: &Cb| -> u32 { c.0 });",
+    "todirect": "let _d = world.to_direct(e2);",
 }
 
 def client_src(p):
@@ -840,6 +898,47 @@ SPECIALS = [
  ("unsafe_in_client_closure", "ecs_iter!(world, |c: &Ca| { let p = c as *const Ca; let _x = unsafe { (*p).0 }; });", "ecs_iter!(world, |c: &Ca| { let _x = c.0; });", ["unsafe_code", "usage of an `unsafe` block"]),
  ("iter_borrow_while_mut_view", "let v = world.view(e).unwrap(); ecs_iter_borrow!(world, |c: &Cb| { let _ = c.0; }); let _x = v.ca.0;", "let v = world.view(e).unwrap(); let _x = v.ca.0; ecs_iter_borrow!(world, |c: &Cb| { let _ = c.0; });", ["E0502"]),
  ("wrong_archetype_typed_key", "let e3 = world.create::<Ab>((Cb(1),)); let _v = world.view::<Aa, _>(e3);", "let e3 = world.create::<Aa>((Ca(1), Cb(1))); let _v = world.view::<Aa, _>(e3);", ["E0277", "E0308", "E0271"]),
+]
+# receiver types: everything that changes or hands out mutable access must need `&mut`: through a
+# shared reference it must be rejected (E0596), through `&mut` the twin compiles
+for _n, _bad, _good in [
+    ("create", "r.create::<Aa>((Ca(3), Cb(4)));", "m.create::<Aa>((Ca(3), Cb(4)));"),
+    ("create_within", "let _ = r.create_within_capacity::<Aa>((Ca(3), Cb(4)));", "let _ = m.create_within_capacity::<Aa>((Ca(3), Cb(4)));"),
+    ("destroy", "r.destroy(e2);", "m.destroy(e2);"),
+    ("destroy_any", "r.destroy(e2.into_any());", "m.destroy(e2.into_any());"),
+    ("view", "let _ = r.view(e).map(|v| v.ca.0);", "let _ = m.view(e).map(|v| v.ca.0);"),
+    ("archetype_mut", "let _ = r.archetype_mut::<Aa>().len();", "let _ = m.archetype_mut::<Aa>().len();"),
+    ("arch_create_via_archetype", "r.archetype::<Aa>().create((Ca(3), Cb(4)));", "m.archetype_mut::<Aa>().create((Ca(3), Cb(4)));"),
+    ("arch_iter_mut", "for x in r.aa.iter_mut() { (x.1).0 += 1; }", "for x in m.aa.iter_mut() { (x.1).0 += 1; }"),
+    ("arch_iter", "for x in r.aa.iter() { let _ = (x.1).0; }", "for x in m.aa.iter() { let _ = (x.1).0; }"),
+    ("get_slice_mut", "r.aa.get_slice_mut::<Ca>()[0].0 += 1;", "m.aa.get_slice_mut::<Ca>()[0].0 += 1;"),
+    ("get_slice", "let _ = r.aa.get_slice::<Ca>()[0].0;", "let _ = m.aa.get_slice::<Ca>()[0].0;"),
+    ("get_all_slices_mut", "r.aa.get_all_slices_mut().ca[0].0 += 1;", "m.aa.get_all_slices_mut().ca[0].0 += 1;"),
+    ("arch_view", "let _ = r.aa.view(e).map(|v| v.ca.0);", "let _ = m.aa.view(e).map(|v| v.ca.0);"),
+    ("arch_destroy", "let _ = r.aa.destroy(e2).is_some();", "let _ = m.aa.destroy(e2).is_some();"),
+    ("ecs_iter", "ecs_iter!(r, |c: &Ca| { let _ = c.0; });", "ecs_iter!(m, |c: &Ca| { let _ = c.0; });"),
+    ("ecs_find", "let _ = ecs_find!(r, e, |c: &Ca| -> u32 { c.0 });", "let _ = ecs_find!(m, e, |c: &Ca| -> u32 { c.0 });"),
+    ("ecs_iter_destroy", "ecs_iter_destroy!(r, |c: &Ca| { let _ = c.0; });", "ecs_iter_destroy!(m, |c: &Ca| { let _ = c.0; });"),
+]:
+    SPECIALS.append(("recv_" + _n, "let r = &world; " + _bad, "let m = &mut world; " + _good, ["E0596"]))
+# `&mut` on an entity-handle parameter is forbidden in every macro, for every handle kind
+for _mac, _call in [("find", "ecs_find!(world, e, |x: %s| { });"), ("find_borrow", "ecs_find_borrow!(world, e, |x: %s| { });"),
+                    ("iter", "ecs_iter!(world, |x: %s| { });"), ("iter_borrow", "ecs_iter_borrow!(world, |x: %s| { });"),
+                    ("iter_destroy", "ecs_iter_destroy!(world, |x: %s| { });")]:
+    for _k, _ty in [("ent", "Entity<Aa>"), ("wild", "Entity<_>"), ("any", "EntityAny"), ("dir", "EntityDirect<Aa>"), ("dwild", "EntityDirect<_>"), ("dany", "EntityDirectAny")]:
+        SPECIALS.append(("mutparam_%s_%s" % (_mac, _k), _call % ("&mut " + _ty), _call % ("&" + _ty), ["mut entity access is forbidden"]))
+SPECIALS += [
+ ("ref_conv_entity_outlives", "let r: &EntityAny = { let x = e; (&x).into() }; let _x = r.archetype_id();", "let x = e; let r: &EntityAny = (&x).into(); let _x = r.archetype_id();", ["E0597", "E0515", "E0716"]),
+ ("ref_conv_direct_outlives", "let r: &EntityDirectAny = { let d = world.to_direct(e).unwrap(); (&d).into() }; let _x = r.archetype_id();", "let d = world.to_direct(e).unwrap(); let r: &EntityDirectAny = (&d).into(); let _x = r.archetype_id();", ["E0597", "E0515", "E0716"]),
+ ("ref_conv_entity_mut_outlives", "let r: &mut EntityAny = { let mut x = e; (&mut x).into() }; let _x = r.archetype_id();", "let mut x = e; let r: &mut EntityAny = (&mut x).into(); let _x = r.archetype_id();", ["E0597", "E0515", "E0716"]),
+ ("ref_conv_direct_mut_outlives", "let r: &mut EntityDirectAny = { let mut d = world.to_direct(e).unwrap(); (&mut d).into() }; let _x = r.archetype_id();", "let mut d = world.to_direct(e).unwrap(); let r: &mut EntityDirectAny = (&mut d).into(); let _x = r.archetype_id();", ["E0597", "E0515", "E0716"]),
+ ("ref_conv_static", "fn keep(e: &Entity<Aa>) -> &'static EntityAny { e.into() } let _x = keep(&e).archetype_id();", "fn keep(e: &Entity<Aa>) -> &EntityAny { e.into() } let _x = keep(&e).archetype_id();", ["lifetime may not live long enough", "E0621", "E0759", "E0521", "E0312"]),
+ ("entities_outlive_world", "let s = { let mut w = EcsWorld::new(); w.create::<Aa>((Ca(1), Cb(2))); w.aa.entities() }; let _x = s.len();", "let mut w = EcsWorld::new(); w.create::<Aa>((Ca(1), Cb(2))); let s = w.aa.entities(); let _x = s.len();", ["E0597", "E0515", "E0505", "E0716"]),
+ ("borrow_entity_outlives_world", "let h = { let mut w = EcsWorld::new(); let e = w.create::<Aa>((Ca(1), Cb(2))); let b = w.borrow(e).unwrap(); *b.entity() }; let r: &Entity<Aa> = { let mut w = EcsWorld::new(); let e = w.create::<Aa>((Ca(1), Cb(2))); let b = w.borrow(e).unwrap(); b.entity() }; let _x = r.archetype_id();", "let mut w = EcsWorld::new(); let e = w.create::<Aa>((Ca(1), Cb(2))); let b = w.borrow(e).unwrap(); let r: &Entity<Aa> = b.entity(); let _x = r.archetype_id();", ["E0597", "E0515", "E0505", "E0716"]),
+ ("view_component_outlives_view", "let r: &mut Ca = { let mut v = world.view(e).unwrap(); v.component_mut::<Ca>() }; world.destroy(e); r.0 += 1;", "{ let mut v = world.view(e).unwrap(); let r: &mut Ca = v.component_mut::<Ca>(); r.0 += 1; } world.destroy(e);", ["E0597", "E0515", "E0505", "E0716", "E0499", "E0502"]),
+ ("borrow_slice_guard_outlives_world", "let g = { let mut w = EcsWorld::new(); w.create::<Aa>((Ca(1), Cb(2))); w.aa.borrow_slice::<Ca>() }; let _x = g.len();", "let mut w = EcsWorld::new(); w.create::<Aa>((Ca(1), Cb(2))); let g = w.aa.borrow_slice::<Ca>(); let _x = g.len();", ["E0597", "E0515", "E0505", "E0716"]),
+ ("two_views_same_entity", "let a = world.view(e).unwrap(); let b = world.view(e).unwrap(); a.ca.0 += 1; b.ca.0 += 1;", "{ let a = world.view(e).unwrap(); a.ca.0 += 1; } { let b = world.view(e).unwrap(); b.ca.0 += 1; }", ["E0499"]),
+ ("iter_item_across_destroy", "let first = world.aa.iter().next().map(|x| x.1).unwrap(); world.destroy(e2); let _x = first.0;", "let first = world.aa.iter().next().map(|x| (x.1).0).unwrap(); world.destroy(e2); let _x = first;", ["E0499", "E0502"]),
 ]
 POSITIVES = [  # must compile: handles are Copy + Send + Sync whatever the component types are
  ("handles_autotraits", "assert_send::<Entity<w2::Ar>>(); assert_sync::<Entity<w2::Ar>>(); assert_copy::<Entity<w2::Ar>>(); assert_send::<EntityDirect<w2::Ar>>(); assert_sync::<EntityDirect<w2::Ar>>(); assert_copy::<EntityDirect<w2::Ar>>(); assert_send::<EntityAny>(); assert_sync::<EntityAny>(); assert_copy::<EntityAny>(); assert_send::<EntityDirectAny>(); assert_sync::<EntityDirectAny>(); assert_copy::<EntityDirectAny>();"),
@@ -900,7 +999,158 @@ def client_corpus(tier, seed):
     res = {"engine": "client", "tier": tier, "programs": len(jobs), "forbidden": counts["forbidden"], "allowed": counts["allowed"],
            "pairs_from_model": len(items) + len(autos), "autotrait_programs": len(autos), "special_pairs": len(SPECIALS), "positives": len(POSITIVES), "traces": len(jobs),
            "tlc_states": st.get("distinct", 0), "tlc_transitions": st.get("generated", 0),
-           "violations": violations[:60], "n_violations": len(violations), "samples": samples,
+           "violations": cap_violations(violations), "n_violations": len(violations), "samples": samples,
            "wall_s": round(time.time() - t0, 1), "cached": False}
     cache_put("client", key, res)
+    return res
+
+
+# ============================================================================ two-level declarations + cfg macro chain (C15, C16)
+
+def wd_body(it, realise=None, twin=False):
+    asg = it["asg"]
+    parts = []
+    def en(x):
+        return all(asg[i] for i, on in enumerate(x["preds"]) if on)
+    for name, a in (("Aa", it["a1"]), ("Ab", it["a2"])):
+        if twin and not en(a):
+            continue
+        comps = []
+        for cname, c in (("Ca", a["c1"]), ("Cb", a["c2"])):
+            if twin and not en(c):
+                continue
+            comps.append("%s %s %s" % ("" if twin else pred_attrs(c["preds"], realise, asg), "#[component_id(%d)]" % c["id"] if c["id"] >= 0 else "", cname))
+        parts.append("%s %s ecs_archetype!(%s, %s);" % ("" if twin else pred_attrs(a["preds"], realise, asg),
+                                                        "#[archetype_id(%d)]" % a["id"] if a["id"] >= 0 else "", name, ", ".join(comps)))
+    return " ".join(parts)
+
+def chain_check(chain, order, kind):
+    """The cfg-probing chain must probe the distinct predicates in first-appearance order, append true
+    under cfg(p) and false under cfg(not(p)), hand over to the next link, and end in __impl_ecs_<kind>."""
+    links = [l for l in chain["links"] if l[1]]
+    if not order:
+        return None if chain["direct"] and not links else "a declaration without predicates must expand directly"
+    if len(links) != 2 * len(order):
+        return "chain has %d links for %d distinct predicates" % (len(links), len(order))
+    for i, p in enumerate(order):
+        pos, neg = links[2 * i], links[2 * i + 1]
+        name = "__cfg_ecs_%s_%d" % (kind, i)
+        nxt = "__impl_ecs_%s" % kind if i == len(order) - 1 else "__cfg_ecs_%s_%d" % (kind, i + 1)
+        if norm_type(pos[0]) != PRED[p] or norm_type(neg[0]) != "not(%s)" % PRED[p]:
+            return "link %d probes %r / %r, expected %s" % (i, pos[0], neg[0], PRED[p])
+        if pos[1] != name or neg[1] != name:
+            return "link %d is named %s/%s, expected %s" % (i, pos[1], neg[1], name)
+        if pos[2] != "true" or neg[2] != "false":
+            return "link %d appends %s under cfg and %s under cfg(not): must be true/false" % (i, pos[2], neg[2])
+        if not pos[3].replace(" ", "").endswith(nxt) or not neg[3].replace(" ", "").endswith(nxt):
+            return "link %d hands over to %s / %s, expected %s" % (i, pos[3], neg[3], nxt)
+    if chain["entry"].rstrip("!") != "__cfg_ecs_%s_0" % kind:
+        return "chain is entered at %s" % chain["entry"]
+    return None
+
+def wdecl(tier, seed):
+    key = key_of("wdecl", repo_hash(), verif_hash(), tier, seed)
+    c = cache_get("wdecl", key)
+    if c:
+        c["cached"] = True
+        return c
+    t0 = time.time()
+    rlib, deps = build_gecs((), False)
+    lab = build_macrolab()
+    psets = "ThreePredSets" if tier == "quick" else "FourPredSets"
+    items, st = tlc_lines("WorldDeclMC", "SPECIFICATION Spec\nCONSTANTS\n  Preds <- TwoPreds\n  ArchIds <- ArchIdChoices\n  CompIds <- CompIdChoices\n  PredSets <- %s\nINVARIANTS Export\nCHECK_DEADLOCK FALSE\n" % psets, "WDECL", timeout=6000)
+    items = [it for it in items if not it["degenerate"]]
+    reqs, index = [], []
+    chains = {}
+    for ii, it in enumerate(items):
+        bools = ", ".join("true" if it["asg"][p - 1] else "false" for p in it["order"])
+        reqs.append("D\t%s\t%s" % (wd_body(it), bools))
+        index.append(("D", ii))
+        body = wd_body(it)
+        if body not in chains:
+            chains[body] = ii
+            reqs.append("C\t%s" % body)
+            index.append(("C", ii))
+    chunks = 12
+    per = (len(reqs) + chunks - 1) // chunks
+    with ThreadPoolExecutor(max_workers=chunks) as ex:
+        parts = list(ex.map(lambda i: run_lab(lab, reqs[i * per:(i + 1) * per]) if reqs[i * per:(i + 1) * per] else [], range(chunks)))
+    results = [r for p in parts for r in p]
+    violations = []
+    stats = {"declarations": len(items), "chains": len(chains), "errors": 0, "with_disabled": 0, "pred_on_arch_and_comp": 0}
+    names = {1: "Aa", 2: "Ab"}
+    cn = {1: "Ca", 2: "Cb"}
+    for (kind, ii), res in zip(index, results):
+        it = items[ii]
+        deco = any(any(x["preds"]) for a in (it["a1"], it["a2"]) for x in (a, a["c1"], a["c2"]))
+        ev = {"a1": it["a1"], "a2": it["a2"], "asg": it["asg"], "order": it["order"], "expected": {"ok": it["ok"], "err": it["err"], "archs": it["archs"]}, "generator": res}
+        if kind == "C":
+            if res["res"] != "ok":
+                msg = "chain generation failed: %s" % res.get("msg")
+            else:
+                msg = chain_check(res["chain"], it["order"], "world")
+                if res.get("unsafe"):
+                    violations.append({"tags": ["C18"], "what": "cfg chain contains `unsafe`", "at": ii, "event": ev, "origin": {"engine": "wdecl"}})
+            if msg:
+                violations.append({"tags": ["C16"], "what": "cfg-probing macro chain of ecs_world!: " + msg, "at": ii, "event": ev, "origin": {"engine": "wdecl-chain"}})
+            continue
+        if not it["ok"]:
+            stats["errors"] += 1
+        for a in (it["a1"], it["a2"]):
+            if any(x and y for x, y in zip(a["preds"], a["c1"]["preds"])) or any(x and y for x, y in zip(a["preds"], a["c2"]["preds"])):
+                stats["pred_on_arch_and_comp"] += 1
+                break
+        msg = None
+        if it["ok"]:
+            if res["res"] != "ok":
+                msg = "declaration rejected (%s), expected ids %s" % (res.get("msg"), it["archs"])
+            else:
+                got = [(a["name"], a["id"], [(c[0], c[1]) for c in a["comps"]]) for a in res["world"]["archs"]]
+                want = [(names[a["which"]], a["id"], [(cn[c["which"]], c["id"]) for c in a["comps"]]) for a in it["archs"]]
+                if len(want) < 2 or any(len(a["comps"]) < 2 for a in it["archs"]):
+                    stats["with_disabled"] += 1
+                if got != want:
+                    msg = "DataWorld %s, expected %s" % (got, want)
+        else:
+            if res["res"] != "err":
+                msg = "expected compile error %s, declaration accepted" % it["err"]
+            elif err_class(res["msg"]) != it["err"]:
+                msg = "expected error %s, got %s" % (it["err"], err_class(res["msg"]))
+        if msg:
+            violations.append({"tags": ["C16", "C15"] if deco else ["C15"], "what": "two-level declaration: " + msg, "at": ii, "event": ev, "origin": {"engine": "wdecl-lib"}})
+    # end to end: the REAL macro chain with --cfg flags (and cfg(all())/cfg(any())), decorated vs expected ids
+    rnd = random.Random(seed)
+    cand = [it for it in items if it["ok"] and len(it["order"]) == 2 and it["archs"]]
+    sample = rnd.sample(cand, min(10 if tier == "quick" else 60, len(cand)))
+    def run_job(job):
+        it, realise = job
+        body = wd_body(it, "const" if realise == "const" else None)
+        lines = [IDS_PRELUDE, "ecs_world! { %s }" % body, "fn main() {"]
+        want = []
+        for a in it["archs"]:
+            an = names[a["which"]]
+            lines.append('    println!("%s {}", %s::ARCHETYPE_ID);' % (an, an))
+            want.append("%s %d" % (an, a["id"]))
+            for cc in a["comps"]:
+                lines.append('    println!("%s.%s {}", <%s as ArchetypeHas<%s>>::COMPONENT_ID);' % (an, cn[cc["which"]], an, cn[cc["which"]]))
+                want.append("%s.%s %d" % (an, cn[cc["which"]], cc["id"]))
+        lines.append("}")
+        extra = [PRED[i + 1] for i, v in enumerate(it["asg"]) if v] if realise == "flags" else []
+        r = compile_run("\n".join(lines), rlib, deps, "wd_%s" % key_of(json.dumps(it), realise)[:12], extra_cfg=extra)
+        ev = {"a1": it["a1"], "a2": it["a2"], "asg": it["asg"], "realise": realise}
+        if r["rc"] != 0:
+            return [{"tags": ["C16", "C15"], "what": "decorated declaration failed to compile: " + r["stderr"][-500:], "at": 0, "event": ev, "origin": {"engine": "wdecl-e2e"}}]
+        if r.get("stdout", "").strip() != "\n".join(want):
+            return [{"tags": ["C16"], "what": "compiled ids %r, expected %r" % (r.get("stdout", "").strip(), "\n".join(want)), "at": 0, "event": ev, "origin": {"engine": "wdecl-e2e"}}]
+        return []
+    jobs = [(it, r) for it in sample for r in ("flags", "const")]
+    with ThreadPoolExecutor(max_workers=12) as ex:
+        for res in ex.map(run_job, jobs):
+            violations += res
+    res = {"engine": "wdecl", "tier": tier, "seed": seed, "programs": len(items), "generator_runs": len(reqs), "stats": stats,
+           "e2e_crates": len(jobs), "traces": len(jobs), "tlc_states": st.get("distinct", 0), "tlc_transitions": st.get("generated", 0),
+           "violations": cap_violations(violations), "n_violations": len(violations),
+           "samples": [{"a1": it["a1"], "a2": it["a2"], "asg": it["asg"], "order": it["order"], "expected": it["archs"]} for it in items[101::9001][:2]],
+           "wall_s": round(time.time() - t0, 1), "cached": False}
+    cache_put("wdecl", key, res)
     return res
